@@ -117,7 +117,8 @@ type R = (usize, usize);
 
 /// interval-arithmetic definition of the positive relation `a OP b`; None = the documentation does not define it
 pub fn ref_pair(op: &OpV, a: R, b: R, text: &[char]) -> Option<bool> {
-    let gap_ws = |from: usize, to: usize| -> bool { text[from..to].iter().all(|c| c.is_whitespace()) };
+    // "a limited amount of whitespace": WHITESPACE_LIMIT = 10 (documented constant)
+    let gap_ws = |from: usize, to: usize| -> bool { to - from <= 10 && text[from..to].iter().all(|c| c.is_whitespace()) };
     let r = match op.kind {
         0 | 10 | 11 => a == b,
         1 => {
